@@ -55,6 +55,14 @@ Theorem C03_concurrent_counter_never_moves_back :
       (exists r', ds_row (fst res) = Some r' /\ same_session r r' /\ (d_fup r <= d_fup r')%N) /\
       NoDup (counters (snd res)) /\ Forall (fun x => (d_fdn r <= x)%N) (counters (snd res)).
 Proof. exact concurrent_uplinks_counters. Qed.
+(* ... and over whole histories of such batches and submissions (the counters of the answers: C07) *)
+Theorem C03_counter_never_moves_back_in_any_history :
+  forall (E D : list N -> list N -> list N) apps evs st r G,
+    ds_row st = Some r -> fb_down st -> d_fdn r = (G mod 65536)%N -> (G + N.of_nat (total evs) <= 65536)%N -> Forall bev_ok evs ->
+    (exists r', ds_row (fst (brun E D apps st evs)) = Some r' /\ same_session r r' /\ (d_fup r <= d_fup r')%N) /\
+    NoDup (counters (snd (brun E D apps st evs))) /\
+    Forall (fun x => (G <= x < G + N.of_nat (total evs))%N) (counters (snd (brun E D apps st evs))).
+Proof. exact batches_counters. Qed.
 (* the two-handler interleaving the forced-schedule correspondence executes on the real pipeline is the
    two-element case of interleaveN, so both theorems speak about it: *)
 Theorem C03_two_handlers_is_an_instance :
@@ -94,3 +102,4 @@ Print Assumptions C03_concurrent_copies_recorded_once.
 Print Assumptions C03_concurrent_counter_never_moves_back.
 Print Assumptions C03_two_handlers_is_an_instance.
 Print Assumptions C03_two_copies_recorded_once.
+Print Assumptions C03_counter_never_moves_back_in_any_history.
